@@ -108,7 +108,7 @@ def run_member_driver(ctx, scripts, prop, label, par):
             f.write(json.dumps(s) + "\n")
     trace = os.path.join(ctx.work, "%s_trace.ndjson" % label)
     hooks = c01.hooks_present(ctx)
-    dr = ctx.go_test("c17_member", run="TestDriver", infile=inp, timeout=3000,
+    dr = ctx.go_test("c17_member", run="TestDriver", infile=inp, timeout=600,
                      tags="verif,verifhooks" if hooks else "verif",
                      env={"VERIF_TRACE": trace, "VERIF_PROP": prop, "VERIF_PAR": par})
     if hooks and os.path.exists(trace) and os.path.getsize(trace) > 0:
